@@ -39,7 +39,7 @@ REQUIRED_STATS = ['activations', 'owner_checked', 'exceptions_observed', 'inject
 
 
 def n_cases(tier):
-    return 1200 if tier == 'quick' else 2400
+    return 1200 if tier == 'quick' else 6000
 
 
 def make_case(seed, index, tier):
